@@ -125,23 +125,40 @@ def gen_select_case(rng):
 def gen_olayer_case(rng):
     depth = rng.randint(2, 4)
     d_in = rng.randint(2, 4)
-    widths = [rng.randint(2, 4) for _ in range(depth)]
     layers = []
     prev = d_in
-    for i, w in enumerate(widths):
+    n_dense = 0
+    for i in range(depth):
+        if i > 0 and rng.random() < 0.5:
+            # a layer WITHOUT an `activation` attribute (Rescaling = temperature / offset on the previous activations):
+            # in the Coq net it is the dense layer with kernel scale*I and bias offset
+            sc, off = rng.choice([0.5, 2.0, 0.25, -1.0]), rng.choice([0.0, 0.25, -0.5])
+            layers.append(dict(name=f"L{i}", kind="rescale", scale=sc, offset=off,
+                               W=[[sc if a == b else 0 for b in range(prev)] for a in range(prev)], b=[off] * prev, relu=False))
+            continue
+        w = rng.randint(2, 4)
         W = [[rng.randint(-2, 2) for _ in range(prev)] for _ in range(w)]
         b = [rng.randint(-1, 1) for _ in range(w)]
-        layers.append(dict(name=f"L{i}", W=W, b=b, relu=(rng.random() < 0.6)))
+        layers.append(dict(name=f"L{i}", kind="dense", W=W, b=b, relu=(rng.random() < 0.6)))
         prev = w
+        n_dense += 1
     head = rng.choice(["relu", "relu", "softmax", "sigmoid"])
     if head == "relu":
+        if layers[-1]["kind"] != "dense":
+            w = rng.randint(2, 4)
+            layers.append(dict(name=f"L{depth}", kind="dense", W=[[rng.randint(-2, 2) for _ in range(prev)] for _ in range(w)],
+                               b=[rng.randint(-1, 1) for _ in range(w)], relu=True))
+            depth += 1
         layers[-1]["relu"] = True
-    k = rng.randint(1, depth)             # number of dense layers kept
+    k = rng.randint(1, depth)             # number of layers kept
+    resc = [i + 1 for i, l in enumerate(layers) if l["kind"] == "rescale"]
+    if resc and rng.random() < 0.6:
+        k = rng.choice(resc)              # the chosen layer is one WITHOUT an `activation` attribute
     how = rng.choice(["name", "neg", "pos"])
     if how == "name":
         ref = layers[k - 1]["name"]
     elif how == "neg":
-        ref = k - (depth + 1)             # model.layers = [Input] + dense (+ activation layer for softmax / sigmoid heads)
+        ref = k - (depth + 1)             # model.layers = [Input] + layers (+ activation layer for softmax / sigmoid heads)
         if head in ("softmax", "sigmoid"):
             ref -= 1
     else:
@@ -151,15 +168,15 @@ def gen_olayer_case(rng):
     return dict(stream="olayer", layers=layers, head=head, ref=ref, kept=k, d_in=d_in,
                 methods=["Saliency", "GradientInput"] + rng.sample(others, 1),
                 xs=[fam.dyadic(rng, d_in) for _ in range(n)],
-                ts=[[rng.randint(-2, 2) / 2 for _ in range(widths[k - 1])] for _ in range(n)], bs=rng.choice([1, 2, None]))
+                ts=[[rng.randint(-2, 2) / 2 for _ in range(len(layers[k - 1]["W"]))] for _ in range(n)], bs=rng.choice([1, 2, None]))
 
 
 def generate(rng, tier):
     cases = gen_dispatch()
-    n = 60 if tier == "quick" else 700
+    n = 66 if tier == "quick" else 700
     for _ in range(n):
         r = rng.random()
-        cases.append(gen_operator_case(rng) if r < 0.5 else gen_select_case(rng) if r < 0.78 else gen_olayer_case(rng))
+        cases.append(gen_operator_case(rng) if r < 0.42 else gen_select_case(rng) if r < 0.65 else gen_olayer_case(rng))
     return cases
 
 
@@ -428,6 +445,9 @@ def build_net(case):
     x = inp
     dense = []
     for l in case["layers"]:
+        if l.get("kind", "dense") == "rescale":
+            x = tf.keras.layers.Rescaling(scale=l["scale"], offset=l["offset"], name=l["name"])(x)
+            continue
         lay = tf.keras.layers.Dense(len(l["W"]), activation="relu" if l["relu"] else None, name=l["name"])
         x = lay(x)
         dense.append((lay, l))
